@@ -4,8 +4,9 @@
 Writes seeded/<id>/<m>/confirm.json.  Usage: tools_confirm_seeded.py [id ...]"""
 import json, os, re, subprocess, sys, shutil, time
 ROOT = os.path.dirname(os.path.abspath(__file__))
-WT = "/tmp/seedcheck/repo"
-TGT = "/tmp/seedcheck/target"
+BASE = os.environ.get("SEEDCHECK_DIR", "/tmp/seedcheck")
+WT = BASE + "/repo"
+TGT = BASE + "/target"
 ENV = dict(os.environ, CARGO_TARGET_DIR=TGT, CARGO_NET_OFFLINE="true")
 
 def sh(cmd, cwd=WT, timeout=3000):
@@ -39,7 +40,7 @@ def install_demo(d, meta, ident):
 
 def main():
     ids = sys.argv[1:] or sorted(os.listdir(os.path.join(ROOT, "seeded")))
-    os.makedirs("/tmp/seedcheck", exist_ok=True)
+    os.makedirs(BASE, exist_ok=True)
     if not os.path.isdir(WT):
         subprocess.run(["git", "-C", "/repo", "worktree", "add", "--detach", WT, "HEAD"], check=True)
     sh("git checkout -q --detach $(git -C /repo rev-parse HEAD) && git checkout -- . && git clean -fdq")
